@@ -64,7 +64,8 @@ def cases(tier, seed):
         yield dict(kind=rnd.choice(kinds), mid=rnd.randrange(65536),
                    outcome=rnd.choice(['success', 'warning', 'failure', 'raise']),
                    pcid=rnd.choice([1, 3, 5, 7, 9, 11, 201]),
-                   variant=rnd.choice(['success', 'failure', 'mixed']), seed=seed * 100003 + j)
+                   variant=rnd.choice(['success', 'failure', 'mixed']),
+                   dest_mute=rnd.random() < 0.25, seed=seed * 100003 + j)
 
 
 STATUS = {'success': 0x0000, 'warning': 0xB000, 'failure': 0xA700}
@@ -342,10 +343,28 @@ def _scp_case(case):
                                               0x0120: f.get(0x0110, 0), 0x0800: 0x0101, 0x0900: 0,
                                               0x1000: f.get(0x1000), 0x1002: f.get(0x1002)})
 
+        class MuteDest(peers.ScriptedAcceptor):
+            # answers every request but never the A-RELEASE-RQ of the sub-association
+            def serve(self):
+                while True:
+                    p_ = self.read_pdu()
+                    if p_ is None or p_ == 'timeout':
+                        self.close()
+                        return
+                    if p_['kind'] == 'P-DATA-TF':
+                        for m_ in self.feed_pdata(p_):
+                            dest_on_message(self, m_)
+                    elif p_['kind'] == 'A-ABORT':
+                        self.close()
+                        return
+
         def dest_factory(sock):
-            p = peers.ScriptedAcceptor(world.sim, sock, on_message=dest_on_message)
+            cls_ = MuteDest if case.get('dest_mute') else peers.ScriptedAcceptor
+            p = cls_(world.sim, sock, on_message=dest_on_message)
             dest_peers.append(p)
             return p
+        if case.get('dest_mute'):
+            srv.timeout = 6
         world.serve_peer(DEST, dest_factory)
         sop = {'echo': rc.VERIFICATION, 'store': rnd.choice(['1.2.840.10008.5.1.4.1.1.2',
                                                               '1.2.840.10008.5.1.4.1.1.4']),
